@@ -1,6 +1,6 @@
 (* Props/C16.v — property C16: SECS-I blocks split, checksum and reassemble any message body without loss. *)
 From SG Require Import Base.Prelude Base.Kinds Gen.ProtoConsts Spec.E4E37Frames Model.Secs2 Model.Frames.
-From SG Require Import Proofs.FramesProofs Base.PyRt Gen.PySecsIHdr Proofs.PySecsIHdrProofs.
+From SG Require Import Proofs.FramesProofs Base.PyRt Gen.PySecsIHdr Proofs.PySecsIHdrProofs Gen.Reasm Proofs.ReasmProofs.
 From Coq Require Import Lia.
 Open Scope N_scope.
 
@@ -109,3 +109,18 @@ Print Assumptions C16_header_code_is_model.
 Example C16_header_code_sample :
   sh_encode (sh_of sample_h) = Ok [65535; 255; 255; 0; 4294967294]%Z /\ sh_decode 65535 255 255 0 4294967294 = Ok (sh_of sample_h).
 Proof. split; vm_compute; reflexivity. Qed.
+
+(* Reassembly as the code has it.  Protocol._add_message_block is read statement by statement on every run (harness/gen_reasm.py -> Gen/Reasm.v):
+   start-or-append under a key tuple of header fields, complete-and-forget, and nothing else (no eviction, no limit, no other entry touched).
+   The key the model uses (one number, `msg_key`) tells two in-range headers apart exactly when the code's key tuple - the regenerated field
+   list - does, and the model's start rule is the regenerated list of block numbers: the theorems above are about the code's keying. *)
+Theorem C16_reassembly_as_translated :
+  reasm_plain = true /\
+  (forall h1 h2, hdr_fields_ok h1 -> hdr_fields_ok h2 ->
+     (msg_key h1 = msg_key h2 <-> key_tuple reasm_key_fields h1 = key_tuple reasm_key_fields h2)) /\
+  (forall b, starts_message b = existsb (fun v => (s_block (sb_hdr b) =? v)%Z) reasm_start_blocks).
+Proof. split; [reflexivity|]. split; [exact msg_key_is_the_code_key|exact starts_message_is_the_code_rule]. Qed.
+Print Assumptions C16_reassembly_as_translated.
+Example C16_reassembly_key_sample :
+  key_tuple reasm_key_fields sample_h = [Some 0xfffffffe; Some 127; Some 255; Some 1]%Z /\ Forall (fun o => o <> None) (key_tuple reasm_key_fields sample_h).
+Proof. split; [reflexivity|]. repeat constructor; discriminate. Qed.
